@@ -1542,6 +1542,45 @@ def c18f(prog, rep):
         m += 1 if ok else 0
         rep.check(ok, R, "dropping-adaptor:%s:%s" % (short(b.npath), nm), "expand_paths can drop an entry through `%s` for a reason other than `not a formattable file`" % nm, where=c.where(),
                   instance={"adaptor": nm, "reason": "formattable_file_path(entry) == false, or the entry is a directory"})
+    # the same filter written as a loop: `for entry in WalkDir::new(dir) { if keep(entry) { paths.push(..) } }` — one iteration as a table
+    from table import Table, TooComplex, render
+    for b in ex:
+        loops = b.loops()
+        for h in sorted(loops):
+            nx = [c for c in b.calls() if c.bb == h and (c.callee or "").endswith("Iterator::next") and "walkdir" in (c.t.get("resolved") or "")]
+            if not nx:
+                continue
+            try:
+                tb = Table(prog, b, start=h, stop=set(loops), inline=1, opaque=("formattable_file_path", "is_dir", "is_file", "path", "file_type", "into_path"), max_paths=4000)
+            except TooComplex:
+                rep.fail(R, "dropping-loop:%s" % short(b.npath), "the directory-walk loop of expand_paths can no longer be enumerated path by path", where=nx[0].where())
+                continue
+            ok, rows = True, 0
+            for (cons, res), calls, end in zip(tb.rows, tb.calls, tb.ends):
+                if end is None:
+                    continue                     # the loop is left (iterator exhausted)
+                rows += 1
+                pushed = [a2 for n2, a2 in calls if n2.split("::")[-1] in ("push", "extend")]
+                cd = {str(x[1]): x[2] for x in cons if x[0] == "cond"}
+                fmt = [v for k2, v in cd.items() if "formattable_file_path(" in k2]
+                isdir = [(k2.startswith("!"), v) for k2, v in cd.items() if re.match(r"^!?is_dir\(", k2)]
+                isfile = [(k2.startswith("!"), v) for k2, v in cd.items() if re.match(r"^!?is_file\(", k2)]
+                a_dir = bool(isdir) and ((isdir[0][1] != 0) != isdir[0][0])
+                is_err = any(x[0] == "is" and x[2] == "Err" for x in cons)
+                if not pushed:
+                    ok &= (not is_err) and ((bool(fmt) and fmt[0] == 0) or a_dir)
+                elif is_err:
+                    pass                          # a walk error is passed on
+                else:
+                    ok &= bool(fmt) and fmt[0] != 0
+                    a_file = (bool(isdir) and not a_dir) or (bool(isfile) and ((isfile[0][1] != 0) != isfile[0][0]))
+                    rep.check(a_file, "C18.h", "walked-entries-are-files:%s" % short(b.npath),
+                              "the directory walk of expand_paths hands every entry with a recognised extension to the workers without asking whether it is a directory", where=nx[0].where(),
+                              instance={"row": [str(x[1])[:60] for x in cons if x[0] == "cond"]})
+            ok &= rows >= 3
+            m += 1 if ok else 0
+            rep.check(ok, R, "dropping-loop:%s" % short(b.npath), "the directory-walk loop of expand_paths can leave an entry out for a reason other than `not a formattable file`", where=nx[0].where(),
+                      instance={"form": "for loop over the walk", "reason": "formattable_file_path(entry) == false, or the entry is a directory"})
     rep.floor(R, "reviewed dropping adaptors in expand_paths (the directory-walk filter)", m, 1)
 
 
